@@ -32,6 +32,13 @@ func randInstant(r *rand.Rand) (int64, int64) {
 	default:
 		sec = -62167219200 + r.Int63n(253402300799+62167219200+1)
 	}
+	// keep the wall clock inside years 0000..9999 in every zone offset used by the generators (|off| <= 14 h)
+	if sec < -62167219200+50400 {
+		sec = -62167219200 + 50400
+	}
+	if sec > 253402300799-50400 {
+		sec = 253402300799 - 50400
+	}
 	var nano int64
 	switch r.Intn(5) {
 	case 0:
@@ -46,6 +53,23 @@ func randInstant(r *rand.Rand) (int64, int64) {
 		nano = r.Int63n(1000000000)
 	}
 	return sec, nano
+}
+
+// spellX returns a spelling and the nanoseconds it denotes (fraction digits may truncate)
+func spellX(r *rand.Rand, sec, nano int64) (string, int64) {
+	s := spell(r, sec, nano)
+	// recover the fraction actually written
+	i := strings.IndexByte(s, '.')
+	if i < 0 {
+		return s, 0
+	}
+	j := i + 1
+	for j < len(s) && s[j] >= '0' && s[j] <= '9' {
+		j++
+	}
+	frac := s[i+1 : j]
+	v, _ := strconv.ParseInt((frac + "000000000")[:9], 10, 64)
+	return s, v
 }
 
 func spell(r *rand.Rand, sec, nano int64) string {
@@ -65,7 +89,7 @@ func spell(r *rand.Rand, sec, nano int64) string {
 		s += "." + fmt.Sprintf("%09d", nano)
 	}
 	if off == 0 && r.Intn(2) == 0 {
-		return s + pick(r, "Z", "Z", "z")
+		return s + "Z"
 	}
 	sign := "+"
 	a := off
@@ -132,7 +156,8 @@ func (datetime) Gen(r *rand.Rand, sessions int) []string {
 			sec, nano := randInstant(r)
 			switch k := r.Intn(10); {
 			case k < 4:
-				out = append(out, "dt"+v+" "+hex.EncodeToString([]byte("\""+spell(r, sec, nano)+"\"")))
+				sp, en := spellX(r, sec, nano)
+				out = append(out, fmt.Sprintf("dtx%s %s %d %d", v, hex.EncodeToString([]byte("\""+sp+"\"")), sec, en))
 			case k < 6:
 				out = append(out, "dt"+v+" "+hex.EncodeToString([]byte(mutate(r, "\""+spell(r, sec, nano)+"\""))))
 			case k == 6:
@@ -156,7 +181,8 @@ func (datetime) Run(ops []string, emit func(string)) {
 			switch f[0] {
 			case "reset":
 				return "ok"
-			case "dt16", "dt201":
+			case "dt16", "dt201", "dtx16", "dtx201":
+				f[0] = strings.Replace(f[0], "dtx", "dt", 1)
 				var b []byte
 				if len(f) > 1 {
 					b, _ = hex.DecodeString(f[1])
